@@ -281,6 +281,9 @@ func (t *tokenStream) parseLicenseRef() *node {
 	ref := referenceNodePartial{documentRef: "", hasDocumentRef: false, licenseRef: ""}
 
 	token := t.peek()
+	if token == nil {
+		return nil
+	}
 	if token.role == documentRefToken {
 		ref.documentRef = token.value
 		ref.hasDocumentRef = true
@@ -294,10 +297,10 @@ func (t *tokenStream) parseLicenseRef() *node {
 	}
 
 	token = t.peek()
-	if token.role != licenseRefToken && ref.hasDocumentRef {
+	if (token == nil || token.role != licenseRefToken) && ref.hasDocumentRef {
 		t.err = errors.New("expected 'LicenseRef-...' after 'DocumentRef-...'")
 		return nil
-	} else if token.role != licenseRefToken {
+	} else if token == nil || token.role != licenseRefToken {
 		// not found is not an error as long as DocumentRef and : weren't the previous tokens
 		return nil
 	}
@@ -315,7 +318,7 @@ func (t *tokenStream) parseLicenseRef() *node {
 // an error is returned.  Advances the index if a valid license is found.
 func (t *tokenStream) parseLicense() *node {
 	token := t.peek()
-	if token.role != licenseToken {
+	if token == nil || token.role != licenseToken {
 		return nil
 	}
 	t.next()
@@ -361,7 +364,7 @@ func (t *tokenStream) parseLicense() *node {
 // Advances the index if the operator is found.
 func (t *tokenStream) parseOperator(operator string) *string {
 	token := t.peek()
-	if token.role == operatorToken && token.value == operator {
+	if token != nil && token.role == operatorToken && token.value == operator {
 		t.next()
 		return &(token.value)
 	}
@@ -380,7 +383,7 @@ func (t *tokenStream) parseWith() *string {
 	}
 
 	token := t.peek()
-	if token.role != exceptionToken {
+	if token == nil || token.role != exceptionToken {
 		t.err = errors.New("expected exception after 'WITH'")
 		return nil
 	}
